@@ -24,8 +24,10 @@ def executable_lines(path):
     funcs = {}
 
     def walk(co, qual):
+        isfunc = bool(co.co_flags & 0x2)         # CO_NEWLOCALS: a function body (module and class bodies run at import)
+        first = co.co_firstlineno
         for _, _, ln in co.co_lines():
-            if ln is not None and ln > 0:
+            if ln is not None and ln > 0 and isfunc and ln != first:
                 lines.add(ln)
                 funcs[ln] = qual
         for c in co.co_consts:
